@@ -20,6 +20,11 @@
      cfg_partial_any       (F25p, fix 7ba69a0) ANY mode: (Partial, Tuple) is
                            answered by the swapped call; a label only the pattern partial names
                            is unconstrained
+     cfg_callable_assume   (F55, hooks/fix_F55.patch) the callable arm records the coinductive
+                           assumption too (and retracts it on failure), so recursive function types
+                           terminate
+     cfg_cc_callable       (F56, hooks/fix_F56.patch; used by Narrow.v) contains_cycle descends into
+                           Callable / Process types
    Fuel: `None` = out of fuel (the Rust recursion is bounded by the assumption set; the fuel is
    only there to make the definition structurally recursive). *)
 From Quiver Require Import Base Types.
@@ -31,7 +36,8 @@ Open Scope nat_scope.
 Inductive union_mode := All | Any.
 
 Record rel_cfg := mk_cfg { cfg_retract : bool; cfg_selfstack : bool;
-                           cfg_partial_name : bool; cfg_partial_any : bool }.
+                           cfg_partial_name : bool; cfg_partial_any : bool;
+                           cfg_callable_assume : bool; cfg_cc_callable : bool }.
 
 Definition assumptions := list (nat * nat).
 Definition key_eqb (k1 k2 : nat * nat) : bool :=
@@ -319,14 +325,18 @@ Section Step.
       end
     (* 502-543: callable types *)
     | TCallable param1 result1 receive1, TCallable param2 result2 receive2 =>
+      let mark := length A in
+      let A0 := if cfg_callable_assume cfg then key :: A else A in
       let ss1 := if cfg_selfstack cfg then push_once ss self_id else ss in
       let ps1 := push_once ps pattern_id in
       (* contravariant positions: the sides swap, and (fix_F12) their stacks with them *)
       let css := if cfg_selfstack cfg then ps1 else ss1 in
       let cps := if cfg_selfstack cfg then ss1 else ps1 in
-      and_then (rec A css cps param2 param1) (fun A1 =>
-      and_then (rec A1 ss1 ps1 result1 result2) (fun A2 =>
-      rec A2 css cps receive2 receive1))
+      let r :=
+        and_then (rec A0 css cps param2 param1) (fun A1 =>
+        and_then (rec A1 ss1 ps1 result1 result2) (fun A2 =>
+        rec A2 css cps receive2 receive1)) in
+      if cfg_callable_assume cfg then retract mark r else r
     (* 545 *)
     | _, _ => Some (false, A)
     end end end end.
@@ -340,10 +350,11 @@ Fixpoint check_rel (cfg : rel_cfg) (P : registry) (mode : union_mode) (fuel : na
   end.
 
 (* the code as found at the pinned commit / with the proposed repairs *)
-Definition legacy_cfg : rel_cfg := mk_cfg false false false false.
-Definition f7_cfg : rel_cfg := mk_cfg true false false false.
-Definition fixed_cfg : rel_cfg := mk_cfg true true false false.          (* /repo at 2246a47 (F7, F12 repaired) *)
-Definition partial_cfg : rel_cfg := mk_cfg true true true true.          (* + 2932723 (F29) and 7ba69a0 (F25p) *)
+Definition legacy_cfg : rel_cfg := mk_cfg false false false false false false.
+Definition f7_cfg : rel_cfg := mk_cfg true false false false false false.
+Definition fixed_cfg : rel_cfg := mk_cfg true true false false false false.          (* /repo at 2246a47 (F7, F12 repaired) *)
+Definition partial_cfg : rel_cfg := mk_cfg true true true true false false.  (* + 2932723 (F29) and 7ba69a0 (F25p) *)
+Definition f55_cfg : rel_cfg := mk_cfg true true true true true true.        (* + hooks/fix_F55, fix_F56 (proposed) *)
 Definition current_cfg : rel_cfg := partial_cfg.                         (* = /repo today *)
 
 (* types.rs:204-215 / 223-234 *)
